@@ -6,6 +6,73 @@ from valib import succ as SUCC
 LEVEL = "other"
 
 
+class _TypeFixed:
+    """a predicate interpreted with its instruction-type parameter fixed: which constants can it return"""
+
+    def __init__(self, prog, pname, value):
+        from valib.core import ConstEval
+        self.ce = ConstEval(prog, {pname: value})
+        self.rets = []
+
+    def copy(self, s): return s
+    def join(self, a, b): return a
+    def equal(self, a, b): return True
+    def widen(self, o, n): return n
+    def decl(self, vd, s): return s
+    def eval(self, e, s): return s
+
+    def assume(self, e, t, s):
+        from valib.core import strip
+        v = self.ce.try_eval(strip(e))
+        if v is not None and bool(v) != t:
+            return None
+        return s
+
+    def eval_ret(self, e, s):
+        from valib.core import strip
+        self.rets.append((e, self.ce.try_eval(strip(e, casts=True))))
+        return s
+
+    def ret(self, n, s): pass
+
+
+def branch_no_extra_byte_rule(chk, prog, rule="CFPAD"):
+    """the predicate that adds a zero byte to an immediate in 0x80000000..0xffffffff (so that it is not read as negative)
+    must be false for CONTROL_FLOW rows: a rel32 displacement is exactly four bytes"""
+    from valib.core import kids, strip, walk, qtype, loc_str, callee_name, expr_str
+    from valib.flow import Flow
+    from valib import bytelen as BL
+    counters = BL.byte_counters(prog)
+    lib = prog.lib_functions()
+    emitters = [fn for fn, f in lib.items() if any(c.get("kind") == "CallExpr" and callee_name(c) in counters for c in walk(prog.body(f)))]
+    preds = []
+    for fn in emitters:
+        for c in walk(prog.body(lib[fn])):
+            if c.get("kind") == "CallExpr" and callee_name(c) in lib:
+                g = lib[callee_name(c)]
+                tp = [p for p in prog.params(g) if qtype(p).replace("enum ", "").strip() == "instr_type"]
+                if tp and qtype(g).split("(")[0].strip() in ("_Bool", "bool", "int"):
+                    preds.append((callee_name(c), tp[0]["name"]))
+    cf = prog.enums.get("CONTROL_FLOW")
+    if cf is None:
+        from valib.core import AnalysisBroken
+        raise AnalysisBroken("enumerator CONTROL_FLOW not found")
+    if not preds:
+        chk.ok(rule, rule + "/no-separate-predicate", "src/", "the immediate emitter calls no separate instruction-type predicate (nothing to decide here)")
+        return 0
+    n = 0
+    for name, pname in sorted(set(preds)):
+        f = lib[name]
+        dom = _TypeFixed(prog, pname, cf)
+        Flow(dom).function(prog, f, ())
+        n += 1
+        bad = [(e, v) for e, v in dom.rets if v != 0]
+        chk.require(not bad, rule, "%s/%s" % (rule, name), loc_str(bad[0][0]) if bad else loc_str(f),
+                    "with the instruction type CONTROL_FLOW every reachable return of %s is false (no extra byte after a rel32 displacement)" % name,
+                    "may return %s" % (expr_str(bad[0][0]) if bad else ""))
+    return n
+
+
 def run(chk, prog, tier):
     tab = Tab(prog)
     ref = tab.ref["forms"]
@@ -27,6 +94,7 @@ def run(chk, prog, tier):
             if nxt.f["name"] == r.f["name"] and not tab.dec[nxt.idx].get("ib"):
                 noib.append(tab.mnemonic(r))
     REL8.rel8_rule(chk, prog, short_rows_without_ib=noib)
+    branch_no_extra_byte_rule(chk, prog)
     chk.floor("branch rows", sum(1 for r in tab.rows[3:-1] if branch(r)), 43)
     chk.floor("branch rows matched against the reference", matched, 43)
     chk.floor("successor obligations", n, 19)
@@ -37,4 +105,4 @@ def run(chk, prog, tier):
         "mnemonic (or an exact duplicate where no short form exists). Increment sites and their guards are "
         "enumerated from the AST. The short/long decision is covered by a value-set analysis (REL8): the set of displacement "
         "values for which the short flag reaches the key increment is computed path-sensitively and must lie inside the "
-        "rel8-representable values, and `long` must exclude it. NOT decided: displacement emission, the 32-bit truncation.")
+        "rel8-representable values, and `long` must exclude it. (CFPAD) the zero-byte predicate of the immediate emitter is false for CONTROL_FLOW. NOT decided: displacement emission in full.")
